@@ -55,7 +55,14 @@ impl DependentRule for SerializableRule {
 
 impl<L: Language> DependentRule for (L, SerializableRuleCore) {
   fn visit_dependency<'a>(&'a self, sorter: &mut TopologicalSort<'a, Self>) -> OrderResult<()> {
-    visit_dependent_rule_ids(&self.1.rule, sorter)
+    visit_dependent_rule_ids(&self.1.rule, sorter)?;
+    // a global rule also requires what its local utilities and constraints refer to
+    let utils = self.1.utils.iter().flat_map(|m| m.values());
+    let constraints = self.1.constraints.iter().flat_map(|m| m.values());
+    for rule in utils.chain(constraints) {
+      visit_dependent_rule_ids(rule, sorter)?;
+    }
+    Ok(())
   }
 }
 
